@@ -134,18 +134,17 @@ def do_error : List SkLine :=
 def do_get : List SkLine :=
    [⟨0, "if", none, "janet_v_count(p1) == 3"⟩,
     ⟨1, "let", none, "$0 = janetc_gettarget(p0)"⟩,
-    ⟨1, "let", none, "$1 = janetc_sequal($0, p1[2])"⟩,
-    ⟨1, "let", none, "$2 = p1[2]"⟩,
-    ⟨1, "if", none, "$1"⟩,
-    ⟨2, "let", none, "$2 = janetc_farslot(p0.compiler)"⟩,
-    ⟨2, "call", none, "janetc_copy(p0.compiler, $2, $0)"⟩,
+    ⟨1, "let", none, "$1 = p1[2]"⟩,
+    ⟨1, "if", none, "janetc_sequal($0, p1[2])"⟩,
+    ⟨2, "let", none, "$1 = janetc_farslot(p0.compiler)"⟩,
+    ⟨2, "call", none, "janetc_copy(p0.compiler, $1, $0)"⟩,
     ⟨1, "emit", some .get, "sss JOP_GET ($0, p1[0], p1[1], 1)"⟩,
-    ⟨1, "emit", some .jumpIfNotNil, "$3 = si JOP_JUMP_IF_NOT_NIL ($0, 0, 0)"⟩,
-    ⟨1, "call", none, "janetc_copy(p0.compiler, $0, $2)"⟩,
-    ⟨1, "if", none, "$1"⟩,
-    ⟨2, "call", none, "janetc_freeslot(p0.compiler, $2)"⟩,
-    ⟨1, "let", none, "$4 = janet_v_count(p0.compiler->buffer)"⟩,
-    ⟨1, "set", none, "p0.compiler->buffer[$3] |= ($4 - $3) << 16"⟩,
+    ⟨1, "emit", some .jumpIfNotNil, "$2 = si JOP_JUMP_IF_NOT_NIL ($0, 0, 0)"⟩,
+    ⟨1, "call", none, "janetc_copy(p0.compiler, $0, $1)"⟩,
+    ⟨1, "if", none, "janetc_sequal($0, p1[2])"⟩,
+    ⟨2, "call", none, "janetc_freeslot(p0.compiler, $1)"⟩,
+    ⟨1, "let", none, "$3 = janet_v_count(p0.compiler->buffer)"⟩,
+    ⟨1, "set", none, "p0.compiler->buffer[$2] |= ($3 - $2) << 16"⟩,
     ⟨1, "ret", none, "$0"⟩,
     ⟨0, "else", none, ""⟩,
     ⟨1, "ret", some .get, "opreduce(p0, p1, JOP_GET, 0, janet_wrap_nil(), janet_wrap_nil())"⟩]
@@ -188,12 +187,10 @@ def janetc_check_nil_form : List SkLine :=
     ⟨0, "let", none, "$0 = janet_unwrap_tuple(p0)"⟩,
     ⟨0, "if", none, "3 != janet_tuple_length($0)"⟩,
     ⟨1, "ret", none, "0"⟩,
-    ⟨0, "let", none, "$1 = $0[0]"⟩,
-    ⟨0, "if", none, "!janet_checktype($1, JANET_FUNCTION)"⟩,
+    ⟨0, "if", none, "!janet_checktype($0[0], JANET_FUNCTION)"⟩,
     ⟨1, "ret", none, "0"⟩,
-    ⟨0, "let", none, "$2 = janet_unwrap_function($1)"⟩,
-    ⟨0, "let", none, "$3 = $2->def->flags & JANET_FUNCDEF_FLAG_TAG"⟩,
-    ⟨0, "if", none, "$3 != p2"⟩,
+    ⟨0, "let", none, "$1 = janet_unwrap_function($0[0])"⟩,
+    ⟨0, "if", none, "($1->def->flags & JANET_FUNCDEF_FLAG_TAG) != p2"⟩,
     ⟨1, "ret", none, "0"⟩,
     ⟨0, "if", none, "janet_checktype($0[1], JANET_NIL)"⟩,
     ⟨1, "set", none, "*p1 = $0[2]"⟩,
